@@ -19,9 +19,13 @@ pub struct Ctx {
     pub search_entered: StdAtomicUsize,
     pub idle_polls_after_done: StdAtomicUsize,
     pub current_go: StdAtomicUsize, // set by the harness body before each go (a go on a finished game consults no clock)
-    pub handles: std::sync::Mutex<Vec<loom::thread::JoinHandle<()>>>,
+    pub handles: std::sync::Mutex<Vec<Option<loom::thread::JoinHandle<()>>>>,
     // observations (std primitives: no scheduling points, never held across one)
     pub captured: std::sync::Mutex<Vec<(String, bool, usize)>>, // (line, clock expired when captured, go index)
+    // the model of standard output: one shared byte buffer (std's LineWriter), every write locks it (a
+    // scheduling point); complete lines move to `emitted`
+    pub stdout_buf: loom::sync::Mutex<Vec<u8>>,
+    pub emitted: std::sync::Mutex<Vec<String>>,
     pub search_panics: std::sync::Mutex<Vec<String>>,
     pub sends_after_expiry: std::sync::Mutex<usize>,
     pub search_queries_after_expiry: std::sync::Mutex<Vec<usize>>,
@@ -42,6 +46,8 @@ pub fn install(expiry: Vec<usize>, stop_depth: u8) -> Arc<Ctx> {
         current_go: StdAtomicUsize::new(0),
         handles: std::sync::Mutex::new(Vec::new()),
         captured: std::sync::Mutex::new(Vec::new()),
+        stdout_buf: loom::sync::Mutex::new(Vec::new()),
+        emitted: std::sync::Mutex::new(Vec::new()),
         search_panics: std::sync::Mutex::new(Vec::new()),
         sends_after_expiry: std::sync::Mutex::new(0),
         search_queries_after_expiry: std::sync::Mutex::new(Vec::new()),
@@ -122,7 +128,8 @@ pub mod hooks {
         let expired = my_last_answer_expired();
         let go = c.current_go.load(SeqCst);
         c.captured.lock().unwrap().push((msg.to_string(), expired, go));
-        true
+        // not swallowed: the engine's own printing statements run against the model of standard output
+        false
     }
 
     pub struct SearchGuard {
@@ -246,34 +253,66 @@ pub mod mpsc {
 pub mod thread {
     use super::*;
 
-    pub struct JoinHandle;
+    /// the std API the engine may use on its search thread: join (the model waits for the thread, as std does),
+    /// is_finished
+    pub struct JoinHandle<T> {
+        idx: usize,
+        result: std::sync::Arc<std::sync::Mutex<Option<T>>>,
+        done: std::sync::Arc<std::sync::atomic::AtomicBool>,
+    }
+
+    impl<T> JoinHandle<T> {
+        pub fn join(self) -> std::thread::Result<T> {
+            let h = ctx().handles.lock().unwrap().get_mut(self.idx).and_then(|h| h.take());
+            if let Some(h) = h {
+                let _ = h.join();
+            }
+            match self.result.lock().unwrap().take() {
+                Some(v) => Ok(v),
+                None => Err(Box::new("the thread panicked")),
+            }
+        }
+        pub fn is_finished(&self) -> bool {
+            self.done.load(SeqCst)
+        }
+    }
 
     /// spawn a model thread with a stack large enough for the search; the harness joins it at the very
     /// end of the execution so that its tail is explored too. A panic is recorded, not propagated.
-    pub fn spawn<F>(f: F) -> JoinHandle
+    pub fn spawn<F, T>(f: F) -> JoinHandle<T>
     where
-        F: FnOnce() + Send + 'static,
+        F: FnOnce() -> T + Send + 'static,
+        T: Send + 'static,
     {
         let c = ctx();
         let c2 = c.clone();
+        let result = std::sync::Arc::new(std::sync::Mutex::new(None));
+        let r2 = result.clone();
+        let done = std::sync::Arc::new(std::sync::atomic::AtomicBool::new(false));
+        let d2 = done.clone();
         let h = loom::thread::Builder::new()
             .stack_size(1 << 21)
             .spawn(move || {
                 let r = std::panic::catch_unwind(std::panic::AssertUnwindSafe(f));
-                if let Err(e) = r {
-                    let msg = if let Some(s) = e.downcast_ref::<&str>() {
-                        s.to_string()
-                    } else if let Some(s) = e.downcast_ref::<String>() {
-                        s.clone()
-                    } else {
-                        "panic".to_string()
-                    };
-                    c2.search_panics.lock().unwrap().push(msg);
+                match r {
+                    Ok(v) => *r2.lock().unwrap() = Some(v),
+                    Err(e) => {
+                        let msg = if let Some(s) = e.downcast_ref::<&str>() {
+                            s.to_string()
+                        } else if let Some(s) = e.downcast_ref::<String>() {
+                            s.clone()
+                        } else {
+                            "panic".to_string()
+                        };
+                        c2.search_panics.lock().unwrap().push(msg);
+                    }
                 }
+                d2.store(true, SeqCst);
             })
             .expect("spawn");
-        c.handles.lock().unwrap().push(h);
-        JoinHandle
+        let mut hs = c.handles.lock().unwrap();
+        hs.push(Some(h));
+        JoinHandle { idx: hs.len() - 1, result, done }
     }
 
     pub struct Livelock;
@@ -290,5 +329,137 @@ pub mod thread {
             }
         }
         loom::thread::yield_now();
+    }
+}
+
+
+/// Standard output as the engine's two threads see it: `std::io::Stdout` is one line-buffered writer behind a
+/// lock that is taken per call (`println!` holds it for the whole line, `write_all` for its bytes only). Every
+/// call here takes the model's lock (a scheduling point) and appends to the shared buffer; bytes up to a line
+/// feed are a line the GUI receives. Everything else of `std::io` is passed through.
+pub mod io {
+    pub use std::io::*;
+    use super::*;
+
+    fn installed() -> Option<Arc<Ctx>> {
+        CTX.lock().unwrap().as_ref().cloned()
+    }
+
+    fn drain_lines(c: &Ctx, buf: &mut Vec<u8>) {
+        while let Some(i) = buf.iter().position(|b| *b == b'\n') {
+            let line: Vec<u8> = buf.drain(..=i).collect();
+            c.emitted.lock().unwrap().push(String::from_utf8_lossy(&line[..line.len() - 1]).to_string());
+        }
+    }
+
+    fn append(bytes: &[u8]) {
+        match installed() {
+            Some(c) => {
+                let mut g = c.stdout_buf.lock().unwrap();
+                g.extend_from_slice(bytes);
+                drain_lines(&c, &mut g);
+            }
+            None => {
+                let _ = std::io::Write::write_all(&mut std::io::stdout(), bytes);
+            }
+        }
+    }
+
+    /// `print!` / `println!`: the whole text under one acquisition of the lock
+    pub fn print_str(s: &str) {
+        append(s.as_bytes());
+    }
+
+    pub struct Stdout;
+
+    pub fn stdout() -> Stdout {
+        Stdout
+    }
+
+    impl Stdout {
+        pub fn lock(&self) -> StdoutLock {
+            let c = installed();
+            let guard = c.as_ref().map(|c| {
+                let g = c.stdout_buf.lock().unwrap();
+                // the guard borrows from the Arc stored next to it (dropped after the guard)
+                unsafe { std::mem::transmute::<loom::sync::MutexGuard<'_, Vec<u8>>, loom::sync::MutexGuard<'static, Vec<u8>>>(g) }
+            });
+            StdoutLock { guard, ctx: c }
+        }
+        pub fn write_all(&mut self, buf: &[u8]) -> Result<()> {
+            append(buf);
+            Ok(())
+        }
+        pub fn write(&mut self, buf: &[u8]) -> Result<usize> {
+            append(buf);
+            Ok(buf.len())
+        }
+        pub fn flush(&mut self) -> Result<()> {
+            append(b"");
+            Ok(())
+        }
+        pub fn write_fmt(&mut self, args: std::fmt::Arguments<'_>) -> Result<()> {
+            // std formats under one lock
+            append(std::fmt::format(args).as_bytes());
+            Ok(())
+        }
+    }
+
+    impl std::io::Write for Stdout {
+        fn write(&mut self, buf: &[u8]) -> Result<usize> {
+            Stdout::write(self, buf)
+        }
+        fn flush(&mut self) -> Result<()> {
+            Stdout::flush(self)
+        }
+    }
+
+    pub struct StdoutLock {
+        guard: Option<loom::sync::MutexGuard<'static, Vec<u8>>>,
+        ctx: Option<Arc<Ctx>>,
+    }
+
+    impl StdoutLock {
+        fn put(&mut self, bytes: &[u8]) {
+            match (self.guard.as_mut(), self.ctx.as_ref()) {
+                (Some(g), Some(c)) => {
+                    g.extend_from_slice(bytes);
+                    drain_lines(c, g);
+                }
+                _ => {
+                    let _ = std::io::Write::write_all(&mut std::io::stdout(), bytes);
+                }
+            }
+        }
+        pub fn write_all(&mut self, buf: &[u8]) -> Result<()> {
+            self.put(buf);
+            Ok(())
+        }
+        pub fn write(&mut self, buf: &[u8]) -> Result<usize> {
+            self.put(buf);
+            Ok(buf.len())
+        }
+        pub fn flush(&mut self) -> Result<()> {
+            Ok(())
+        }
+        pub fn write_fmt(&mut self, args: std::fmt::Arguments<'_>) -> Result<()> {
+            self.put(std::fmt::format(args).as_bytes());
+            Ok(())
+        }
+    }
+
+    impl std::io::Write for StdoutLock {
+        fn write(&mut self, buf: &[u8]) -> Result<usize> {
+            StdoutLock::write(self, buf)
+        }
+        fn flush(&mut self) -> Result<()> {
+            Ok(())
+        }
+    }
+
+    impl Drop for StdoutLock {
+        fn drop(&mut self) {
+            self.guard = None; // before the Arc it borrows from
+        }
     }
 }
